@@ -1,6 +1,7 @@
 package c37
 
 import (
+	"context"
 	"fmt"
 	"net/url"
 	"strconv"
@@ -60,6 +61,17 @@ func firstDiff(a, b *inst) string {
 	}
 	return ""
 }
+
+// fakeSession is a signaling.SignalPeerSession handle.
+type fakeSession struct {
+	name          string
+	local, remote peer.ID
+}
+
+func (f *fakeSession) GetLocalPeerID() peer.ID                    { return f.local }
+func (f *fakeSession) GetRemotePeerID() peer.ID                   { return f.remote }
+func (f *fakeSession) Send(ctx context.Context, msg []byte) error { return nil }
+func (f *fakeSession) Recv(ctx context.Context) ([]byte, error)   { return nil, nil }
 
 func TestC37(t *testing.T) {
 	run := evid.Start("C37", "exploration")
@@ -151,6 +163,15 @@ func TestC37(t *testing.T) {
 			for _, r := range peers {
 				add(true, "SignalPeer", []param{{"signaling", sid}, {"local", pname(l)}, {"remote", pname(r)}}, func() directive.Directive { return signaling.NewSignalPeer(sid, l, r) })
 			}
+		}
+	}
+	// incoming signaling sessions: identity is the signaling id and the session
+	// HANDLE (the object handlers call Send / Recv on): two distinct sessions
+	// between the same two peers are different requests
+	sessions := []*fakeSession{{"s1", ks[0].ID, ks[1].ID}, {"s2", ks[0].ID, ks[1].ID}, {"s3", ks[1].ID, ks[0].ID}}
+	for _, sid := range strs("", "s", "t") {
+		for _, se := range sessions {
+			add(true, "HandleSignalPeer", []param{{"signaling", sid}, {"session", se.name}}, func() directive.Directive { return signaling.NewHandleSignalPeer(sid, se) })
 		}
 	}
 	for _, p := range peers {
